@@ -1135,7 +1135,11 @@ func w7CheckRead1(s *simrt.Sim, w *w7World, sc *w7Script, nc *w7Conn, c *Conn, r
 	}
 	if !v.ok {
 		s.Violate(v.prop, v.clause, v.sig, "%s", v.detail)
-		if ref.Term.Kind == "proto" && w7CloseReason(ref.Term.Reason) {
+		// C31 is concerned with how the offending close frame is treated, not with what
+		// was delivered before it arrived: a message-content mismatch in a stream that
+		// happens to end with such a close frame is C29's alone (C31-6-43984: the
+		// recorded C29 early-delivery finding followed by a forbidden close code)
+		if ref.Term.Kind == "proto" && w7CloseReason(ref.Term.Reason) && v.clause != "messages" && v.clause != "early-delivery" {
 			s.Violate("C31", v.clause, v.sig, "%s", v.detail)
 		}
 	}
